@@ -58,6 +58,8 @@ def run(ctx, pid):
     tot = {"walks": 0, "steps": 0, "drift": 0, "hist": 0, "events": 0, "notq": 0}
     samples = []
     others = collections.Counter()
+    conformance = {"histories": 0, "accepted": 0, "not_comparable": 0, "first_rejection": None}
+    conf_lock = threading.Lock()
     known_hits = collections.Counter()
 
     # ---- design level (the exhaustive runs also dump their state graphs for the edge cover)
@@ -112,6 +114,30 @@ def run(ctx, pid):
         p = ctx.run([exe, "explore", str(n), str(nprod), str(nmsgs), str(ctx.seed * 10 + mode), t, "2", str(mode)], timeout=3000)
         rs = json.loads(p.stdout.strip().splitlines()[-1])
         mm, nl = monitor(ctx, t, "explore-%d-%d" % (mode, nprod))
+        # code -> spec conformance at gate granularity: every explored execution must be a behaviour of ActorTurn.tla
+        cfg = ctx.tmp("Trace_ActorTurn_%d_%d.cfg" % (mode, nprod))
+        with open(cfg, "w") as f:
+            f.write('SPECIFICATION TSpec\nCONSTANTS\n  Producers = {%s}\n  NMsgs <- Msgs%d\n  Budget = 2\n  MaxTurns = 24\n'
+                    '  Restarts = %d\n  Stops = %d\n  Pills = %d\n  Defects = {"StopRace"}\n  RankOf <- Ranks\nCHECK_DEADLOCK FALSE\n'
+                    % (", ".join('"p%d"' % i for i in range(1, nprod + 1)), nmsgs, int(mode == 1), int(mode == 2), int(mode == 3)))
+        name = os.path.basename(cfg)
+        r = ctx.tlc(SPEC, name, module="MC_Trace_ActorTurn", dfs=True, files={"trace.ndjson": t, name: cfg}, timeout=3000,
+                    heap="6g", name="conf-%d-%d" % (mode, nprod), expect_fail=True)
+        reached = len(vlib.tuples(r.out, "CONF"))
+        rows_ = vlib.read_ndjson(t)
+        noncomp, cur = 0, False
+        for e in rows_:
+            if e["ev"] == "New":
+                noncomp += int(cur)
+                cur = False
+            elif e["ev"] == "concurrent":
+                cur = True
+        with conf_lock:
+            conformance["histories"] += rs["behaviours"]
+            conformance["not_comparable"] += noncomp      # a step overlapped with a thread blocked inside the code (load)
+            conformance["accepted"] += (max(0, reached - 1) if r.depth != nl + 1 else rs["behaviours"])
+            if r.depth != nl + 1 and not conformance["first_rejection"]:
+                conformance["first_rejection"] = "explore mode=%d producers=%d: trace line %d" % (mode, nprod, r.depth)
         return ("explore mode=%d producers=%d" % (mode, nprod)), rs, mm, nl, t
 
     sfuts += [pool.submit(explore, m, np_, nm) for m in modes for (np_, nm) in ((2, 3), (3, 2))]
@@ -144,7 +170,7 @@ def run(ctx, pid):
                        "restart) on a real actor system + seeded random (PCT-style, hand-off biased) schedules over the real gates "
                        "+ free-running 3-sender runs per FIFO mailbox kind with/without concurrent Restart/Stop/PoisonPill; distinct_nontrivial = distinct edge-cover walks replayed (each interleaves >= 2 threads)",
                "atomic_steps_replayed": tot["steps"], "replay_drift": tot["drift"], "events_judged": tot["events"],
-               "not_quiescent": tot["notq"], "mismatches_for_other_properties": dict(others), "known_finding_hits": dict(known_hits), "exhaustive": False}
+               "not_quiescent": tot["notq"], "mismatches_for_other_properties": dict(others), "known_finding_hits": dict(known_hits), "gate_level_conformance_of_explored_runs": conformance, "exhaustive": False}
         ctx.evidence("model_checking", cov,
                      ["default (unbounded) mailbox at atomic-step granularity; other FIFO mailboxes through free-running runs",
                       "one actor without children; restart is PID.Restart from an external goroutine; throughput budget 2",
